@@ -54,6 +54,24 @@ class T1Client(BaseClient):
                             self.restores[id(n)] = ra
                         if isinstance(v, ast.Subscript) and recv_attr(v.value) == ra:
                             self.restores[id(n)] = ra
+        # saved in a list, restored in a loop:  L = [v.a for v in C]  ...  for x, a0 in zip(C, L): x.a = a0
+        saved_lists = {}
+        for n in ast.walk(fn):
+            if isinstance(n, ast.Assign) and len(n.targets) == 1 and isinstance(n.targets[0], ast.Name) and isinstance(n.value, ast.ListComp) \
+                    and len(n.value.generators) == 1 and isinstance(n.value.elt, ast.Attribute) and isinstance(n.value.generators[0].target, ast.Name) \
+                    and isinstance(n.value.elt.value, ast.Name) and n.value.elt.value.id == n.value.generators[0].target.id and not n.value.generators[0].ifs:
+                saved_lists[n.targets[0].id] = (n.value.elt.attr, ast.unparse(n.value.generators[0].iter))
+        for loop in ast.walk(fn):
+            if not isinstance(loop, ast.For):
+                continue
+            src = self._sources(loop)
+            for n in ast.walk(loop):
+                if isinstance(n, ast.Assign) and isinstance(n.value, ast.Name) and src.get(n.value.id) in saved_lists:
+                    attr, coll = saved_lists[src[n.value.id]]
+                    for t in n.targets:
+                        ra = recv_attr(t)
+                        if ra and ra[1] == attr and src.get(ra[0]) == coll:
+                            self.restores[id(n)] = ra
         # an attribute is a swap attribute only if it also has a non-restoring store in this function
         rest_attrs = {ra[1] for ra in self.restores.values()}
         plain = {ra[1] for n, ra in self.stores if id(n) not in self.restores}
@@ -148,7 +166,21 @@ def analyse(fn, helpers=None):
                 continue
             seen.add(key)
             bad.append((k, sorted({a for _, a, _ in St}), n))
-    return {"attrs": sorted(c.swap_attrs), "exits": len(exits), "bad": bad, "stmts": n_stmts,
+    # T1c: a self-slice restore (`X.a = X.a[:m0]`) gives back the original entries only if the temporary value extends the original
+    #      without touching it (np.concatenate / np.pad / np.vstack / np.append of X.a); a value rebuilt by a normalising constructor
+    #      (Rotation.from_quat renormalises its quaternions) comes back changed in the last bits
+    PREFIX_KEEPING = {"concatenate", "pad", "vstack", "append", "hstack", "r_"}
+    inexact = []
+    for n, ra in c.stores:
+        if id(n) in c.restores and isinstance(n.value, ast.Subscript) and recv_attr(n.value.value) == ra:
+            for m, rb in c.stores:
+                if id(m) in c.restores or rb != ra:
+                    continue
+                v = m.value
+                keeps = isinstance(v, ast.Call) and getattr(v.func, "attr", getattr(v.func, "id", "")) in PREFIX_KEEPING
+                if not keeps:
+                    inexact.append((m, n))
+    return {"attrs": sorted(c.swap_attrs), "exits": len(exits), "bad": bad, "stmts": n_stmts, "inexact": inexact,
             "restore_stmts": [n for n, ra in c.stores if id(n) in c.restores],
             "store_stmts": [n for n, ra in c.stores if id(n) not in c.restores and ra[1] in c.swap_attrs],
             "helper_calls": len(c.helper_calls)}
